@@ -1,0 +1,282 @@
+//go:build verif
+
+// Contracts for package text (comment-only; read by /verif/govc).
+
+package text
+
+//@ import "bytes"
+//@ import "fmt"
+//@ import "regexp"
+//@ import "sort"
+//@ import "unicode/utf8"
+//@ import "github.com/opsidian/parsley/parsley"
+//@ import "github.com/opsidian/parsley/data"
+//@ import "github.com/opsidian/parsley/ast"
+//@ import "github.com/opsidian/parsley/parser"
+
+//@ props C09,C12
+
+//@ -- File invariant: len caches len(data); the base offset is >= 1 (so that position 0 can serve
+//@ -- as "no position"), and offsets stay far away from the integer range
+//@ pure func wfFile(f *File) bool = f != nil && f.len == len(f.data) && f.offset >= 1 && f.offset <= 1<<60 && f.len <= 1<<48
+//@ pure func inFile(f *File, pos parsley.Pos) bool = f.offset <= int(pos) && int(pos) <= f.offset+f.len
+//@ pure func wfReader(r *Reader) bool = r != nil && wfFile(r.file) && r.regexpCache != nil
+//@ pure func isWs(b byte) bool = b == ' ' || b == '\t' || b == '\n' || b == '\f'
+//@ pure func isLb(b byte) bool = b == '\n' || b == '\f'
+//@ pure func wordChar(b byte) bool = 'a' <= b && b <= 'z' || 'A' <= b && b <= 'Z' || '0' <= b && b <= '9' || b == '_'
+
+//@ -- UTF-8 decoding of the first rune of b (unicode/utf8.DecodeRune), as uninterpreted spec functions
+//@ abstract func utf8Rune(b []byte) rune
+//@ abstract func utf8Width(b []byte) int
+
+//@ assume func unicode/utf8.DecodeRune(p []byte) (r rune, size int)
+//@   ensures r == utf8Rune(p) && size == utf8Width(p)
+//@   ensures 0 <= size && size <= len(p) && size <= 4
+//@   ensures len(p) >= 1 ==> size >= 1
+//@   assigns nothing
+
+//@ assume func bytes.HasPrefix(s []byte, prefix []byte) (r bool)
+//@   ensures r == (len(prefix) <= len(s) && forall i int :: 0 <= i && i < len(prefix) ==> s[i] == prefix[i])
+//@   assigns nothing
+
+//@ func (f *File) Len() (r int)
+//@   requires f != nil
+//@   ensures  r == f.len
+//@   assigns  nothing
+
+//@ func (f *File) SetOffset(o int)
+//@   requires f != nil
+//@   ensures  f.offset == o
+//@   assigns  f.offset
+
+//@ func (f *File) Pos(p int) (r parsley.Pos)
+//@   requires f != nil && f.offset >= 0 && f.offset <= 1<<60 && 0 <= p && p <= 1<<60
+//@   ensures  int(r) == f.offset + p
+//@   assigns  nothing
+
+//@ func (r *Reader) Pos(cur int) (p parsley.Pos)
+//@   requires wfReader(r) && 0 <= cur && cur <= 1<<60
+//@   ensures  int(p) == r.file.offset + cur
+//@   assigns  nothing
+
+//@ func NewReader(file *File) (r *Reader)
+//@   ensures fresh(r) && r.file == file && r.regexpCache != nil && fresh(r.regexpCache)
+//@   assigns nothing
+
+//@ func isWordCharacter(b byte) (r bool)
+//@   ensures r == wordChar(b)
+//@   assigns nothing
+
+//@ func (r *Reader) Remaining(pos parsley.Pos) (n int)
+//@   requires wfReader(r) && inFile(r.file, pos)
+//@   ensures  n == r.file.len - (int(pos) - r.file.offset) && 0 <= n
+//@   assigns  nothing
+
+//@ func (r *Reader) IsEOF(pos parsley.Pos) (b bool)
+//@   requires wfReader(r) && inFile(r.file, pos)
+//@   ensures  b == (int(pos) - r.file.offset >= r.file.len)
+//@   ensures  b == (int(pos) == r.file.offset + r.file.len)
+//@   assigns  nothing
+
+//@ func (r *Reader) ReadRune(pos parsley.Pos, ch rune) (np parsley.Pos, ok bool)
+//@   requires wfReader(r) && inFile(r.file, pos)
+//@   requires 0 <= ch && ch <= 0x10FFFF
+//@   let f = r.file
+//@   let cur = int(pos) - r.file.offset
+//@   ensures [mismatch] !ok ==> np == pos
+//@   ensures [ascii] ch < 0x80 ==> ok == (cur < f.len && rune(f.data[cur]) == ch)
+//@   ensures [ascii-adv] ch < 0x80 && ok ==> int(np) == int(pos) + 1
+//@   ensures [multi] ch >= 0x80 ==> ok == (cur < f.len && utf8Rune(f.data[cur:]) == ch)
+//@   ensures [multi-adv] ch >= 0x80 && ok ==> int(np) == int(pos) + utf8Width(f.data[cur:]) && utf8Width(f.data[cur:]) >= 1
+//@   ensures [bound] int(pos) <= int(np) && int(np) <= f.offset + f.len
+//@   assigns nothing
+
+//@ func (r *Reader) MatchString(pos parsley.Pos, str string) (np parsley.Pos, ok bool)
+//@   requires wfReader(r) && inFile(r.file, pos)
+//@   requires str != ""
+//@   let f = r.file
+//@   let cur = int(pos) - r.file.offset
+//@   ensures [mismatch] !ok ==> np == pos
+//@   ensures [spec] ok == (len(str) <= f.len - cur && forall i int :: 0 <= i && i < len(str) ==> f.data[cur+i] == str[i])
+//@   ensures [adv] ok ==> int(np) == int(pos) + len(str) && int(np) <= f.offset + f.len
+//@   assigns nothing
+
+//@ func (r *Reader) MatchWord(pos parsley.Pos, word string) (np parsley.Pos, ok bool)
+//@   requires wfReader(r) && inFile(r.file, pos)
+//@   requires word != "" && forall i int :: 0 <= i && i < len(word) ==> word[i] < 0x80
+//@   let f = r.file
+//@   let cur = int(pos) - r.file.offset
+//@   ensures [mismatch] !ok ==> np == pos
+//@   ensures [spec] ok == (len(word) <= f.len - cur && (forall i int :: 0 <= i && i < len(word) ==> f.data[cur+i] == word[i]) && (cur + len(word) == f.len || !wordChar(f.data[cur+len(word)])))
+//@   ensures [adv] ok ==> int(np) == int(pos) + len(word) && int(np) <= f.offset + f.len
+//@   assigns nothing
+//@ loop 1 (n rangeindex)
+//@   invariant 0 <= n && n <= len(word)
+//@   invariant forall i int :: 0 <= i && i < n ==> f.data[cur+i] == word[i]
+
+//@ -- ------------------------------------------------------------ whitespace
+//@ props C09,C10,C12
+
+//@ globalinv [ws-errors] parsley.IsWsErr(wsNoneErr) && !typeis[parsley.Error](wsNoneErr) && parsley.IsWsErr(wsSpacesForceNlErr) && !typeis[parsley.Error](wsSpacesForceNlErr) && parsley.IsWsErr(wsSpacesErr) && !typeis[parsley.Error](wsSpacesErr)
+
+//@ func init()
+//@   assigns wsNoneErr, wsSpacesForceNlErr, wsSpacesErr
+
+//@ func (r *Reader) SkipWhitespaces(pos parsley.Pos, m WsMode) (np parsley.Pos, err parsley.Error)
+//@   requires wfReader(r) && inFile(r.file, pos)
+//@   let f = r.file
+//@   let cur0 = int(pos) - r.file.offset
+//@   ensures [run] cur0 <= int(np)-f.offset && int(np)-f.offset <= f.len
+//@   ensures [allws] forall k int :: cur0 <= k && k < int(np)-f.offset ==> isWs(f.data[k])
+//@   ensures [maximal] int(np)-f.offset == f.len || !isWs(f.data[int(np)-f.offset])
+//@   ensures [none;C10] m == WsNone ==> (err != nil) == (int(np) > int(pos)) && (err != nil ==> err.Pos() == pos)
+//@   ensures [spaces;C10] m == WsSpaces ==> (err != nil) == (exists k int :: cur0 <= k && k < int(np)-f.offset && isLb(f.data[k]))
+//@   ensures [spaces-pos;C10] m == WsSpaces && err != nil ==> cur0 <= int(err.Pos())-f.offset && int(err.Pos())-f.offset < int(np)-f.offset && isLb(f.data[int(err.Pos())-f.offset]) && forall k int :: cur0 <= k && k < int(err.Pos())-f.offset ==> !isLb(f.data[k])
+//@   ensures [nl;C10] m == WsSpacesNl ==> err == nil
+//@   ensures [forcenl;C10] m == WsSpacesForceNl ==> (err == nil) == (exists k int :: cur0 <= k && k < int(np)-f.offset && isLb(f.data[k])) && (err != nil ==> err.Pos() == np)
+//@   ensures [othermodes;C10] m > WsSpacesForceNl ==> err == nil
+//@   ensures [kind;C10] err != nil ==> parsley.IsWsErr(err)
+//@   assigns nothing
+//@ loop 1 (cur int, nlPos parsley.Pos)
+//@   invariant cur0 <= cur && cur <= f.len
+//@   invariant forall k int :: cur0 <= k && k < cur ==> isWs(f.data[k])
+//@   invariant nlPos == 0 ==> forall k int :: cur0 <= k && k < cur ==> !isLb(f.data[k])
+//@   invariant nlPos != 0 ==> cur0 <= int(nlPos)-f.offset && int(nlPos)-f.offset < cur && isLb(f.data[int(nlPos)-f.offset]) && forall k int :: cur0 <= k && k < int(nlPos)-f.offset ==> !isLb(f.data[k])
+//@   decreases f.len - cur
+
+//@ -- ---------------------------------------------------------------- regexp
+//@ props C09,C12
+
+//@ -- a compiled pattern is usable by the reader when it is anchored at the cursor and cannot match the empty input
+//@ abstract func reAnchored(re *regexp.Regexp) bool
+//@ abstract func reMatchesEmpty(re *regexp.Regexp) bool
+//@ -- validSource(s): s compiles (MustCompile does not panic) and does not match the empty input;
+//@ -- validPattern(e): that holds of "^(?:"+e+")" (getPattern panics otherwise: documented argument check)
+//@ abstract func validSource(src string) bool
+//@ pure func validPattern(expr string) bool = validSource("^(?:" + expr + ")")
+//@ pure func anchoredSource(s string) bool = len(s) >= 4 && s[0] == '^' && s[1] == '(' && s[2] == '?' && s[3] == ':'
+//@ pure func wfCache(r *Reader) bool = r.regexpCache != nil && forall k string :: dom(r.regexpCache, k) ==> r.regexpCache[k] != nil && reAnchored(r.regexpCache[k]) && !reMatchesEmpty(r.regexpCache[k])
+
+//@ assume func regexp.MustCompile(str string) (re *regexp.Regexp)
+//@   ensures re != nil && fresh(re)
+//@   requires validSource(str)
+//@   ensures anchoredSource(str) ==> reAnchored(re)
+//@   ensures !reMatchesEmpty(re)
+//@   assigns nothing
+
+//@ assume func (re *regexp.Regexp) Match(b []byte) (r bool)
+//@   requires re != nil
+//@   ensures  len(b) == 0 ==> r == reMatchesEmpty(re)
+//@   assigns  nothing
+
+//@ assume func (re *regexp.Regexp) FindIndex(b []byte) (loc []int)
+//@   requires re != nil
+//@   ensures  loc != nil ==> len(loc) == 2 && 0 <= loc[0] && loc[0] <= loc[1] && loc[1] <= len(b)
+//@   ensures  loc != nil && reAnchored(re) ==> loc[0] == 0
+//@   ensures  loc != nil && !reMatchesEmpty(re) && len(b) == 0 ==> false
+//@   assigns  nothing
+
+//@ assume func (re *regexp.Regexp) FindSubmatch(b []byte) (m [][]byte)
+//@   requires re != nil
+//@   ensures  m != nil ==> len(m) >= 1 && len(m[0]) <= len(b)
+//@   ensures  m != nil && reAnchored(re) ==> array(m[0]) == array(b) && offset(m[0]) == offset(b)
+//@   assigns  nothing
+
+//@ func (r *Reader) getPattern(expr string) (re *regexp.Regexp)
+//@   requires r != nil && wfCache(r)
+//@   requires validPattern(expr)
+//@   ensures  re != nil && reAnchored(re) && !reMatchesEmpty(re)
+//@   ensures  wfCache(r)
+//@   assigns  mapcells(r.regexpCache)
+
+//@ func (r *Reader) ReadRegexp(pos parsley.Pos, expr string) (np parsley.Pos, v []byte)
+//@   requires wfReader(r) && wfCache(r) && inFile(r.file, pos)
+//@   requires validPattern(expr)
+//@   let f = r.file
+//@   let cur = int(pos) - r.file.offset
+//@   ensures [mismatch] v == nil ==> np == pos
+//@   ensures [span] v != nil ==> int(np) == int(pos) + len(v) && int(np) <= f.offset + f.len && array(v) == array(f.data) && offset(v) == offset(f.data) + cur
+//@   ensures [bound] int(pos) <= int(np) && int(np) <= f.offset + f.len
+//@   ensures  wfCache(r)
+//@   assigns  mapcells(r.regexpCache)
+
+//@ func (r *Reader) ReadRegexpSubmatch(pos parsley.Pos, expr string) (np parsley.Pos, m [][]byte)
+//@   requires wfReader(r) && wfCache(r) && inFile(r.file, pos)
+//@   requires validPattern(expr)
+//@   let f = r.file
+//@   ensures [mismatch] m == nil ==> np == pos
+//@   ensures [span] m != nil ==> len(m) >= 1 && int(np) == int(pos) + len(m[0])
+//@   ensures [bound] int(pos) <= int(np) && int(np) <= f.offset + f.len
+//@   ensures  wfCache(r)
+//@   assigns  mapcells(r.regexpCache)
+
+//@ func (r *Reader) Readf(pos parsley.Pos, f func(b []byte) ([]byte, int)) (np parsley.Pos, v []byte)
+//@   requires wfReader(r) && inFile(r.file, pos)
+//@   ensures [mismatch] np == pos ==> v == nil
+//@   ensures [bound] int(pos) <= int(np) && int(np) <= r.file.offset + r.file.len
+//@   ensures [advance] v != nil ==> int(np) > int(pos)
+//@   assigns nothing
+//@ callee f(b []byte) (v []byte, n int)
+//@   ensures n == 0 ==> v == nil
+//@   ensures 0 <= n && len(v) <= n && n <= len(b)
+//@   assigns nothing
+
+//@ -- ------------------------------------------------------------------ file
+//@ props C11,C09,C12
+
+//@ assume func bytes.Replace(s []byte, old []byte, new []byte, n int) (r []byte)
+//@   ensures r == nil || fresh(r)
+//@   assigns nothing
+
+//@ assume func sort.Search(n int, f func(int) bool) (r int)
+//@   requires n >= 0
+//@   ensures  0 <= r && r <= n
+//@   ensures  r == 0 || !callb(f, r-1)
+//@   ensures  r == n || callb(f, r)
+//@   assigns  nothing
+//@ callee f(i int) (b bool)
+//@   requires 0 <= i && i < n
+//@   assigns nothing
+
+//@ func NewFile(filename string, data []byte) (f *File)
+//@   ensures fresh(f) && wfFile(f) && f.offset == 1 && f.lines == nil && f.filename == filename
+//@   ensures f.data == nil || fresh(f.data)
+//@   assigns nothing
+
+//@ -- line table: lines[j] is the offset of the first byte of line j+1; line starts are exactly 0 and
+//@ -- the successors of '\n' bytes, in increasing order, none skipped
+//@ pure func wfLines(f *File) bool = f.lines != nil ==> len(f.lines) >= 1 && f.lines[0] == 0 && (forall i, j int :: 0 <= i && i < j && j < len(f.lines) ==> f.lines[i] < f.lines[j]) && (forall j int :: 1 <= j && j < len(f.lines) ==> 1 <= f.lines[j] && f.lines[j] <= f.len && f.data[f.lines[j]-1] == '\n') && (forall j, j2, k int :: 0 <= j && j2 == j+1 && j2 < len(f.lines) && f.lines[j] <= k && k < f.lines[j2]-1 ==> f.data[k] != '\n') && (forall k int :: f.lines[len(f.lines)-1] <= k && k < f.len ==> f.data[k] != '\n')
+
+//@ func (f *File) setLines()
+//@   requires wfFile(f)
+//@   ensures  f.lines != nil && wfLines(f) && fresh(f.lines)
+//@   assigns  f.lines
+//@ loop 1 (n rangeindex)
+//@   invariant 0 <= n && n <= f.len && f.len == len(f.data) && same(f.data, old(f.data))
+//@   invariant f.lines != nil && fresh(f.lines) && len(f.lines) >= 1 && f.lines[0] == 0 && len(f.lines) <= n+1
+//@   invariant forall i, j int :: 0 <= i && i < j && j < len(f.lines) ==> f.lines[i] < f.lines[j]
+//@   invariant [range] forall j int :: 1 <= j && j < len(f.lines) ==> 1 <= f.lines[j] && f.lines[j] <= n
+//@   invariant [after-nl] forall j int :: 1 <= j && j < len(f.lines) ==> f.data[f.lines[j]-1] == '\n'
+//@   invariant forall j, j2, k int :: 0 <= j && j2 == j+1 && j2 < len(f.lines) && f.lines[j] <= k && k < f.lines[j2]-1 ==> f.data[k] != '\n'
+//@   invariant forall k int :: f.lines[len(f.lines)-1] <= k && k < n ==> f.data[k] != '\n'
+//@   invariant f.lines[len(f.lines)-1] <= n
+
+//@ closure (*File).Position$1(i int) (r bool)
+//@   captures (f *File, pos int)
+//@   requires f != nil && 0 <= i && i < len(f.lines)
+//@   ensures  [def] r == (f.lines[i] > pos)
+//@   assigns  nothing
+
+//@ func (f *File) Position(pos int) (r parsley.Position)
+//@   requires wfFile(f) && wfLines(f) && 0 <= pos
+//@   ensures  [nil] pos > f.len ==> r == parsley.NilPosition
+//@   ensures  [pos] pos <= f.len ==> typeis[*Position](r) && fresh(r.(*Position)) && r.(*Position).Filename == f.filename
+//@   ensures  [line] pos <= f.len ==> 1 <= r.(*Position).Line && r.(*Position).Line <= len(f.lines) && f.lines[r.(*Position).Line-1] <= pos && (r.(*Position).Line == len(f.lines) || f.lines[r.(*Position).Line] > pos)
+//@   ensures  [column] pos <= f.len ==> r.(*Position).Column == pos - f.lines[r.(*Position).Line-1] + 1
+//@   ensures  [table] wfLines(f) && (pos <= f.len ==> f.lines != nil)
+//@   ensures  [stable] old(f.lines) != nil ==> same(f.lines, old(f.lines))
+//@   assigns  f.lines
+
+//@ func NewPosition(filename string, line int, column int) (p *Position)
+//@   ensures fresh(p) && p.Filename == filename && p.Line == line && p.Column == column
+//@   assigns nothing
